@@ -2,7 +2,7 @@
    This file contains only statements closed by [exact] and their Print Assumptions. *)
 From Coq Require Import List Arith Reals.
 From RL4CO Require Import Base.OField Base.OFieldQc Base.OFieldR Train.Welford Train.Baselines Train.GenEq
-  Gen.GenWelford Gen.GenBaselines.
+  Train.WelfordZeroVar Gen.GenWelford Gen.GenBaselines.
 Import ListNotations.
 Open Scope of_scope.
 
@@ -44,6 +44,37 @@ Theorem C20_scaler_scale_output :
       map (fun v => v / (sq (ssd all (fmean all) / (of_nat (length all) - f1)) + eps)) x.
 Proof. exact scaler_call_scale. Qed.
 Print Assumptions C20_scaler_scale_output.
+
+(* zero-variance histories (every value observed so far, the current batch included, is the same number c):
+   sqrt is abstract with the single hypothesis sq 0 = 0; the scaling factor  std + eps  is then exactly eps *)
+Theorem C20_scaler_scale_output_zero_variance :
+  forall (K : ofield) (sq : K -> K) (eps c : K) (bs : list (list K)) (x : list K),
+    sq f0 = f0 ->
+    let all := concat (bs ++ [x]) in
+    all <> [] -> Forall (fun v => v = c) all ->
+    snd (w_call_scale sq eps (w_run bs) x) = map (fun v => v / eps) x.
+Proof. exact scaler_call_scale_zero_variance. Qed.
+Print Assumptions C20_scaler_scale_output_zero_variance.
+
+Theorem C20_scaler_norm_output_zero_variance :
+  forall (K : ofield) (sq : K -> K) (eps c : K) (bs : list (list K)) (x : list K),
+    sq f0 = f0 ->
+    let all := concat (bs ++ [x]) in
+    all <> [] -> Forall (fun v => v = c) all ->
+    snd (w_call_norm sq eps (w_run bs) x) = map (fun _ => f0) x.
+Proof. exact scaler_call_norm_zero_variance. Qed.
+Print Assumptions C20_scaler_norm_output_zero_variance.
+
+(* the sign of eps in the factor is observable exactly there: dividing by (0 - eps) negates the output *)
+Theorem C20_scale_by_minus_eps_negates :
+  forall (K : ofield) (eps v : K), eps <> f0 -> v / (f0 - eps) = - (v / eps).
+Proof. exact scale_by_minus_eps. Qed.
+Print Assumptions C20_scale_by_minus_eps_negates.
+
+Example C20_zero_variance_example :   (* RewardScaler('scale')([2,2,2]) with eps = 2^-23: 2 * 2^23 = 16777216 *)
+  snd (w_call_scale (K:=QcF) (fun _ => qc 0 1) (qc 1 8388608) (w_run []) [qc 2 1; qc 2 1; qc 2 1])
+  = [qc 16777216 1; qc 16777216 1; qc 16777216 1].
+Proof. vm_compute. reflexivity. Qed.
 
 Theorem C20_chunking_irrelevant :
   forall (K : ofield) (bs bs' : list (list K)),
